@@ -151,6 +151,7 @@ fn tweaks() -> impl Strategy<Value = Tweaks> {
         // degenerate but balanced shapes
         1 => Just(Tweaks { no_outputs: true, ..Default::default() }),
         1 => Just(Tweaks { zero_coin_output: true, ..Default::default() }),
+        2 => prop_oneof![Just(0u64), Just(1), Just(u64::MAX), any::<u64>()].prop_map(|q| Tweaks { collateral_return_asset: Some(q), ..Default::default() }),
     ]
 }
 
@@ -225,6 +226,11 @@ fn check(c: &Case, obs: &mut Obs) -> Result<(), Fail> {
     let env = pp::env(era, &t);
     // the call must return; a panic is caught by the runner and reported with its root-cause signature
     let r = run::validate(era, &tx, &f.utxos, &env);
+    if let (Some(q), Some(p), false) = (c.tw.collateral_return_asset, c.spec.plutus.as_ref(), matches!(r, run::Outcome::Undecodable(_))) {
+        if era.babbage_plus() && p.collateral_return {
+            obs.class(format!("{}:collateral-return-with-{}-asset:{}", era.name(), if q == 0 { "zero" } else { "an" }, if c.spec.legacy_outputs { "legacy-layout" } else { "map-layout" }));
+        }
+    }
     match r {
         run::Outcome::Undecodable(_) => {
             obs.class("undecodable");
@@ -284,7 +290,15 @@ pub fn run(s: &Session) {
                 prop::option::weighted(0.1, any::<u16>()),
                 any::<u8>(),
             )
-                .prop_map(|(spec, tw, tx_ops, utxo_ops, utxo_kind, drop_utxo, extreme_pp)| Case { spec, tw, tx_ops, utxo_ops, utxo_kind, drop_utxo, extreme_pp })
+                .prop_map(|(mut spec, tw, tx_ops, utxo_ops, utxo_kind, drop_utxo, extreme_pp)| {
+                    // the collateral-return tweak needs a collateral return to act on (legacy layout in two cases of three:
+                    // that is the layout in which a zero quantity decodes)
+                    if let (Some(q), Some(p)) = (tw.collateral_return_asset, spec.plutus.as_mut()) {
+                        p.collateral_return = true;
+                        spec.legacy_outputs = q % 3 != 1;
+                    }
+                    Case { spec, tw, tx_ops, utxo_ops, utxo_kind, drop_utxo, extreme_pp }
+                })
         },
         check,
     );
